@@ -283,6 +283,16 @@ def run(chk):
         for h in (0, 1):
             inputs.append(("declaration %d@%d" % (k, h), (HOSTS[0] % ("{ %s }" % dcl)) if h == 0 else (HOSTS[1] % dcl), True))
         inputs.append(("declaration %d@int" % k, HOSTS[0].replace("text:", "indent:") % ("{ %s }" % dcl), True))
+    # zero / negative / huge layout counts and indices; object names outside ASCII on objects that need support code
+    for cnt in ("0", "-1", "65536", "65537", "4294967296", "1.5", "\"2\"", "true", "chk.checked ? 1 : 2"):
+        for flow in ("columns: %s", "flow: QGridLayout.TopToBottom; rows: %s", "rows: %s", "flow: QGridLayout.TopToBottom; columns: %s"):
+            inputs.append(("layout count", HEAD + "QWidget { QCheckBox { id: chk } QGridLayout { %s; QLabel { } QLabel { QLayout.row: 1 } QLabel { } } }\n" % (flow % cnt), True))
+    for ix in ("0", "-1", "65535", "65536", "2147483648", "-2147483649", "1.0", "null"):
+        for m in ("row", "column", "rowSpan", "columnSpan", "rowStretch", "columnStretch", "rowMinimumHeight", "columnMinimumWidth"):
+            inputs.append(("layout index", HEAD + "QWidget { QGridLayout { QLabel { QLayout.%s: %s } QLabel { } } QFormLayout { QLabel { QLayout.%s: %s } } QVBoxLayout { QLabel { QLayout.%s: %s } } }\n" % (m, ix, m, ix, m, ix), True))
+    for name in ("überschrift", "消去", "éa", "Ωmega", "_x", "x_", "a1", "ß", "ı", "ǆ", "a\u0301b", "x٣"):
+        inputs.append(("non-ascii id binding", HEAD + "QWidget { QCheckBox { id: chk } QLabel { id: %s; enabled: chk.checked; onLinkActivated: { chk.checked = true } } QLabel { text: %s.text } }\n" % (name, name), True))
+        inputs.append(("non-ascii id buddy", HEAD + "QWidget { QLineEdit { id: %s } QLabel { buddy: %s; windowTitle: %s.text } }\n" % (name, name, name), True))
     inputs += [("edge:self action", HEAD + "QMenu { actions: [menuAction()] }\n", True), ("edge:this action", HEAD + "QWidget { QMenu { actions: [this.menuAction()] } }\n", True),
                ("edge:this buddy", HEAD + "QWidget { QLabel { buddy: this } }\n", True)]
     inputs += [("edge:empty", "", True), ("edge:nul", "\x00", True), ("edge:bom", "﻿" + base["kind:nothing dynamic"], True), ("edge:only import", HEAD, True),
